@@ -56,6 +56,9 @@ def generate_all_p(all_predicate: AllPredicate) -> Iterator:
 
         # TODO: combination of some true values, or just rewrite as any(false)
         values = take(max_length, generate_false(predicate))
+        if not values:
+            return  # every element satisfies the predicate, so every collection satisfies all_p
+
         yield random_combination_with_replacement(values, max_length)
 
 
